@@ -88,7 +88,8 @@ struct ReqSpec<'a> {
     garbage: [u8; 20],
 }
 
-fn build_request(s: &ReqSpec) -> Vec<u8> {
+/// header + every attribute in front of MESSAGE-INTEGRITY
+fn build_prefix(s: &ReqSpec) -> Message {
     let mut m = Message::new();
     m.typ = BINDING_REQUEST;
     m.transaction_id = TransactionId(s.txid);
@@ -107,6 +108,56 @@ fn build_request(s: &ReqSpec) -> Vec<u8> {
     if s.use_candidate {
         m.add(ATTR_USE_CANDIDATE, &[]);
     }
+    m
+}
+
+/// MESSAGE-INTEGRITY attributes that are NOT 20 bytes long (RFC 5389 §15.4: the value is the 20-byte
+/// HMAC-SHA1). The harness knows the password, so it can offer the strongest form: the correct leading
+/// `len` bytes of the HMAC. What "the HMAC" is for a shortened attribute is ambiguous (the header length
+/// that goes into the HMAC input depends on where one thinks the attribute ends), so one request per
+/// reading is built: length field as for a regular 24-byte attribute (`rfc`), up to the declared end
+/// (`declared`), up to the padded end (`padded`), the final length including FINGERPRINT (`final`) and
+/// the length in front of the attribute (`before`). `first_bytes` instead enumerates all 256 values of a
+/// one-byte attribute behind an identical prefix (what an attacker without the password can do).
+/// The attribute is padded to a multiple of 4 and the header length is consistent in every request.
+fn build_short_mi_requests(s: &ReqSpec, len: usize, first_bytes: bool) -> Vec<(String, Vec<u8>)> {
+    use hmac::Mac;
+    let m = build_prefix(s);
+    let cur = m.raw.len() - 20;
+    let finish = |value: &[u8]| {
+        let mut m2 = m.clone();
+        m2.add(ATTR_MESSAGE_INTEGRITY, value);
+        let _ = FINGERPRINT.add_to(&mut m2);
+        m2.raw.clone()
+    };
+    if first_bytes {
+        return (0..=255u8).map(|x| (format!("byte={x}"), finish(&[x]))).collect();
+    }
+    let pad = (len + 3) & !3;
+    let readings = [
+        ("rfc", cur + 24),
+        ("declared", cur + 4 + len),
+        ("padded", cur + 4 + pad),
+        ("final", cur + 4 + pad + 8),
+        ("before", cur),
+    ];
+    let mut out: Vec<(String, Vec<u8>)> = vec![];
+    for (name, hdr_len) in readings {
+        let mut covered = m.raw.clone();
+        covered[2..4].copy_from_slice(&(hdr_len as u16).to_be_bytes());
+        let Ok(mut mac) = <hmac::Hmac<sha1::Sha1> as Mac>::new_from_slice(s.right_key.as_bytes()) else { continue };
+        mac.update(&covered);
+        let tag = mac.finalize().into_bytes();
+        let bytes = finish(&tag[..len.min(20)]);
+        if !out.iter().any(|(_, b)| *b == bytes) {
+            out.push((name.to_string(), bytes));
+        }
+    }
+    out
+}
+
+fn build_request(s: &ReqSpec) -> Vec<u8> {
+    let mut m = build_prefix(s);
     match s.mi {
         Mi::None => {}
         Mi::Garbage => m.add(ATTR_MESSAGE_INTEGRITY, &s.garbage),
@@ -731,6 +782,46 @@ async fn drive(s: &Value, ctx: &Ctx, rng: &mut Rng) -> Result<Outcome, String> {
                 from.send_to(&bytes, ctx.agent_udp).await.map_err(|e| e.to_string())?;
             }
         }
+        "mi_sweep" => {
+            // right USERNAME, MESSAGE-INTEGRITY attribute of a declared length other than 20
+            let len = s.get("mi_len").and_then(|v| v.as_u64()).unwrap_or(1) as usize;
+            let first_bytes = scen_str(s, "form") == "first_bytes";
+            let mut txid = [0u8; 12];
+            txid.copy_from_slice(&rng.bytes(12));
+            let reqs = build_short_mi_requests(
+                &ReqSpec {
+                    txid,
+                    username: Some(ctx.auth_username()),
+                    priority: if scen_bool(s, "prio") { Some(0x6e00_1eff) } else { None },
+                    role_attr: match scen_str(s, "role_attr") {
+                        "controlling" => Some(true),
+                        "controlled" => Some(false),
+                        _ => None,
+                    },
+                    use_candidate: uc,
+                    mi: Mi::None,
+                    right_key: &ctx.pwd,
+                    garbage: [0; 20],
+                },
+                len,
+                first_bytes,
+            );
+            if let Some((_, b0)) = reqs.first() {
+                injected_hex = hex_cap(b0, 160);
+            }
+            counters.push(("requests_injected", reqs.len() as u64));
+            counters.push(("short_mi_requests_injected", reqs.len() as u64));
+            // in chunks, each followed by a barrier, so that the agent's receive buffer cannot overflow
+            // and silently thin out the sweep
+            for chunk in reqs.chunks(32) {
+                for (_, bytes) in chunk {
+                    st.send_to(bytes, ctx.agent_udp).await.map_err(|e| e.to_string())?;
+                }
+                if reqs.len() > 32 {
+                    barrier(ctx, &b, rng).await?;
+                }
+            }
+        }
         "tail" => {
             // Information only (the statement does not cover it: the request IS authenticated): a valid
             // check without USE-CANDIDATE, to which USE-CANDIDATE is appended *after* MESSAGE-INTEGRITY
@@ -798,6 +889,9 @@ async fn drive(s: &Value, ctx: &Ctx, rng: &mut Rng) -> Result<Outcome, String> {
     if kind == "request" && stranger_answers > 0 {
         counters.push(("unauthenticated_requests_answered(info)", 1));
     }
+    if kind == "mi_sweep" && stranger_answers > 0 {
+        counters.push(("short_mi_requests_answered(info)", stranger_answers));
+    }
     let eff = effect(&before, &after);
 
     // ---------------------------------------------------------------- non-vacuity control
@@ -818,7 +912,7 @@ async fn drive(s: &Value, ctx: &Ctx, rng: &mut Rng) -> Result<Outcome, String> {
         control_effect = effect(&after, &ctl);
         control_ok = !control_effect.is_empty();
     } else if kind != "null" && kind != "tail" {
-        let (bytes, txid) = ctx.auth_request(rng, uc && kind == "request");
+        let (bytes, txid) = ctx.auth_request(rng, uc && (kind == "request" || kind == "mi_sweep"));
         if sock == "tcp" && kind == "request" {
             let Some(tcp_addr) = ctx.agent_tcp else { return Err("no tcp address".into()) };
             let mut cs = tcp_connect(tcp_addr, &udp_ports).await?;
@@ -928,6 +1022,31 @@ async fn drive(s: &Value, ctx: &Ctx, rng: &mut Rng) -> Result<Outcome, String> {
                 Verdict::Held
             }
         }
+        "mi_sweep" => {
+            let len = s.get("mi_len").and_then(|v| v.as_u64()).unwrap_or(1);
+            if !eff.is_empty() {
+                Verdict::violated(
+                    format!(
+                        "req=right_username+short_mi(len={}),uc={},sock={},role={},effect={}",
+                        if len == 0 { "0" } else { "1..19" },
+                        uc as u8,
+                        sockk,
+                        scen_str(s, "role"),
+                        eff
+                    ),
+                    format!(
+                        "Binding request(s) with the right USERNAME and a MESSAGE-INTEGRITY attribute of declared length {len} ({}; a shortened tag is not a MESSAGE-INTEGRITY, USE-CANDIDATE {}) from a stranger changed the ICE tuple of a {} agent in state {}: {}",
+                        if scen_str(s, "form") == "first_bytes" { "all 256 values of the one byte" } else { "the correct leading bytes of the HMAC, every reading of the covered length" },
+                        uc, scen_str(s, "role"), state, eff
+                    ),
+                    detail.clone(),
+                )
+            } else if !control_ok {
+                Verdict::Inconclusive("authenticated control request had no effect (non-vacuity failed)".into())
+            } else {
+                Verdict::Held
+            }
+        }
         _ => {
             let tx = scen_str(s, "txid");
             if tx == "outstanding_wrong_source" {
@@ -976,6 +1095,8 @@ fn gen_scenarios(args: &Args) -> Vec<Value> {
     let socks: &[&str] = &["udp", "mux", "tcp"];
     let reps = args.tier.pick(1u64, 6u64);
     let mut idx = 0u64;
+    // (own counter for the MI-length family: the seeds of the older scenarios stay what they were)
+    let mut idx2 = 1u64 << 32;
     for sock in socks {
         for state in ["new", "checking", "connected"] {
             for role in ["controlling", "controlled"] {
@@ -1019,6 +1140,26 @@ fn gen_scenarios(args: &Args) -> Vec<Value> {
                 }
                 if *sock != "tcp" && role == "controlled" {
                     out.push(mk(json!({"kind": "tail"}), &mut idx));
+                }
+                if *sock != "tcp" {
+                    // MESSAGE-INTEGRITY length sweep (UDP sockets: one read loop, so the barrier is exact)
+                    for rep in 0..reps {
+                        for uc in [false, true] {
+                            for (form, len) in [("prefix", 0u64), ("prefix", 1), ("prefix", 2), ("prefix", 4), ("prefix", 8),
+                                                ("prefix", 19), ("first_bytes", 1)] {
+                                // later passes (thorough only): other lengths
+                                let len = if rep == 0 || form != "prefix" { len } else { [3u64, 5, 6, 7, 9, 12, 16][(len as usize + rep as usize) % 7] };
+                                let mut r = root.fork(0x51C06 ^ (idx2 << 8) ^ rep);
+                                let role_attr = *r.pick(&["none", "controlling", "controlled"]);
+                                let prio = r.bool();
+                                out.push(mk(
+                                    json!({"kind": "mi_sweep", "form": form, "mi_len": len, "uc": uc, "src": "new",
+                                           "role_attr": role_attr, "prio": prio}),
+                                    &mut idx2,
+                                ));
+                            }
+                        }
+                    }
                 }
                 if *sock != "tcp" {
                     for resp in ["success", "error"] {
@@ -1168,6 +1309,16 @@ pub fn run(args: &Args) -> i32 {
                     req_class(scen_str(&s, "user"), scen_str(&s, "mi")),
                     scen_bool(&s, "uc") as u8,
                     scen_str(&s, "src"),
+                    config_of(&s)
+                ),
+            ),
+            Verdict::Held if kind == "mi_sweep" => report.seen(
+                "short_mi_sweeps_held",
+                format!(
+                    "{}:len={}|uc={}|{}",
+                    scen_str(&s, "form"),
+                    s.get("mi_len").and_then(|v| v.as_u64()).unwrap_or(0),
+                    scen_bool(&s, "uc") as u8,
                     config_of(&s)
                 ),
             ),
